@@ -38,7 +38,9 @@ DATETIMES = [datetime.datetime(2001, 1, 1, 10, 0, 0), datetime.datetime(2001, 1,
              datetime.datetime(2001, 1, 1, 10, 0, 0, tzinfo=UTC),
              datetime.datetime(2001, 1, 1, 10, 0, 0, tzinfo=datetime.timezone(datetime.timedelta(hours=5, minutes=30))),
              datetime.datetime(1, 1, 1, 0, 0, 0), datetime.datetime(9999, 12, 31, 23, 59, 59, 999999)]
-PATHS = [pathlib.Path('a/b'), pathlib.Path('/abs/x y'), pathlib.Path('.'), pathlib.Path('1'), pathlib.Path('true')]
+PATHS = [pathlib.Path('a/b'), pathlib.Path('/abs/x y'), pathlib.Path('.'), pathlib.Path('1'), pathlib.Path('true'),
+         pathlib.Path('~'), pathlib.Path('~/data'), pathlib.Path('~root/x'), pathlib.Path('a/../b'), pathlib.Path('..'),
+         pathlib.Path('$HOME/x'), pathlib.Path('a b '), pathlib.Path('é/ü'), pathlib.Path('null'), pathlib.Path('1e5'), pathlib.Path('a: b')]
 
 
 def number_shapes():
@@ -157,6 +159,16 @@ def ref_sweeten(cls, data, op):
                     continue
             out[key] = val
         return out
+    if k == 'stamp':
+        # the non-idempotent marker of mc/models.py: n-th stamp of its family gets n, a repeated one +100
+        if isinstance(data, dict):
+            out = collections.OrderedDict(data)
+            if op[1] in out:
+                out[op[1]] = out[op[1]] + 100
+            else:
+                out[op[1]] = 1 + sum(1 for kk in out if isinstance(kk, str) and kk.startswith(op[1][:2]))
+            return out
+        return data
     if k == 'unders_to_dashes':
         if isinstance(data, dict):
             return collections.OrderedDict((kk.replace('_', '-') if isinstance(kk, str) else kk, v) for kk, v in data.items())
